@@ -314,7 +314,6 @@ def ungroup_notes(
                         column=note.column,
                         note_type=NoteType.TAIL,
                         player=note.player,
-                        keysound_index=note.keysound_index,
                     ),
                 )
 
